@@ -4,6 +4,7 @@ import (
 	"fmt"
 	"go/ast"
 	"go/token"
+	"regexp"
 	"sort"
 	"strconv"
 	"strings"
@@ -275,6 +276,11 @@ func checkForeignUnwrapKeeps(p *core.Program, r *core.Report, rule string) {
 					if l.Val && (strings.HasSuffix(l.Atom, ` == "xmp"`) || strings.HasSuffix(l.Atom, ` == "plaintext"`) || strings.HasPrefix(l.Atom, `in(set‹"plaintext","xmp"›,`)) {
 						shown = true
 					}
+					// the same decided once per kind, outside the loop over the elements: a merge of
+					// such comparisons, or a flag in the table of kinds that is set for these two only
+					if l.Val && (mergeOfShownKinds(p, fn, l.Atom) || flagOfShownKinds(l.Atom)) {
+						shown = true
+					}
 					if l.Val && l.Atom == "domutil.IsProbablyVisible("+elem+")" {
 						visible = true
 					}
@@ -291,4 +297,74 @@ func checkForeignUnwrapKeeps(p *core.Program, r *core.Report, rule string) {
 	}
 	r.Add(rule, "the foreign-content pass keeps the children only of a visible xmp/plaintext (never-rendered kinds go with their text)", p.Pos(conv.Pos()), n >= 1 && len(bad) == 0,
 		fmt.Sprintf("%d passes with an svg/math ancestor test, %d iteration paths keep children, %d of them for another kind or without the visibility test", n, nKeep, len(bad)), bad...)
+}
+
+var reKindRow = regexp.MustCompile(`\{"([a-z]+)",(true|false)\}`)
+
+// flagOfShownKinds: the atom reads a boolean column of a fixed table of {kind, flag} rows in which
+// the flag is set for xmp and plaintext only.
+func flagOfShownKinds(atom string) bool {
+	if !strings.HasPrefix(atom, "&elem({{") {
+		return false
+	}
+	rows := reKindRow.FindAllStringSubmatch(atom, -1)
+	if len(rows) == 0 {
+		return false
+	}
+	nTrue := 0
+	for _, m := range rows {
+		if m[2] == "true" {
+			nTrue++
+			if m[1] != "xmp" && m[1] != "plaintext" {
+				return false
+			}
+		}
+	}
+	return nTrue > 0
+}
+
+// mergeOfShownKinds: the branch condition with this atom is a merge of booleans that is true only
+// if a comparison of the kind with "xmp" or "plaintext" came out true (`k == "xmp" || k ==
+// "plaintext"` evaluated into a variable).
+func mergeOfShownKinds(p *core.Program, fn *ssa.Function, atom string) bool {
+	c := core.NewCanon(p)
+	isShownCmp := func(v ssa.Value) bool {
+		a, wt := c.CondAtom(v)
+		return wt && (strings.HasSuffix(a, ` == "xmp"`) || strings.HasSuffix(a, ` == "plaintext"`))
+	}
+	for _, b := range fn.Blocks {
+		if len(b.Instrs) == 0 {
+			continue
+		}
+		ifi, ok := b.Instrs[len(b.Instrs)-1].(*ssa.If)
+		if !ok {
+			continue
+		}
+		if a, wt := c.CondAtom(ifi.Cond); a != atom || !wt {
+			continue
+		}
+		ph, ok := ifi.Cond.(*ssa.Phi)
+		if !ok || len(ph.Edges) != len(ph.Block().Preds) {
+			return false
+		}
+		for i, e := range ph.Edges {
+			if cv, isC := core.ConstBool(e); isC {
+				if !cv {
+					continue
+				}
+				// true arrives: over the true edge of a shown-kind comparison
+				pred := ph.Block().Preds[i]
+				pi, ok := pred.Instrs[len(pred.Instrs)-1].(*ssa.If)
+				if !ok || !isShownCmp(pi.Cond) || pred.Succs[0] != ph.Block() {
+					return false
+				}
+				continue
+			}
+			if !isShownCmp(e) {
+				return false
+			}
+		}
+		return true
+	}
+	return false
 }
